@@ -447,3 +447,200 @@ func pipelineDepthRule(c *Ctx, rule string, pred func(string) bool, floor int) {
 	}
 	c.Check(n >= floor, rule, "instances", 0, itoa(n)+" pipelines sized from configuration inspected", "fewer configuration-sized pipelines found than confirmed by hand")
 }
+
+// registerCollisionRule: the codec's wire tag (import path + type name) is not
+// injective — two function-local types with one identifier in one package share
+// it. Register must notice that a tag is already bound to a different type;
+// silently overwriting the binding makes a saved value of the first type come
+// back as the second (fields that do not exist there are dropped) with no error.
+func registerCollisionRule(c *Ctx, rule string) {
+	p := c.P
+	f := c.fn(rule, "internal/codec", "Registry", "Register")
+	if f == nil {
+		return
+	}
+	fn := p.SSAFunc(f)
+	if fn == nil {
+		c.Unknown(rule, "internal/codec.Registry.Register", p.Decl(f).Pos(), "no SSA body")
+		return
+	}
+	nUpd, guarded := 0, true
+	for _, b := range fn.Blocks {
+		for _, in := range b.Instrs {
+			mu, ok := in.(*ssa.MapUpdate)
+			if !ok {
+				continue
+			}
+			nUpd++
+			// a comma-ok lookup on the same map must dominate the update and decide a branch
+			found := false
+			for _, b2 := range fn.Blocks {
+				for _, in2 := range b2.Instrs {
+					lk, isLk := in2.(*ssa.Lookup)
+					if !isLk || !lk.CommaOk || !InstrDominates(lk, mu) {
+						continue
+					}
+					if VKey(lk.X) != VKey(mu.Map) {
+						continue
+					}
+					for _, ref := range *lk.Referrers() {
+						if ex, isEx := ref.(*ssa.Extract); isEx {
+							for _, r2 := range *ex.Referrers() {
+								switch r2.(type) {
+								case *ssa.If, *ssa.BinOp:
+									found = true
+								}
+							}
+						}
+					}
+				}
+			}
+			if !found {
+				guarded = false
+			}
+		}
+	}
+	c.Check(nUpd >= 1 && guarded, rule, "internal/codec.Registry.Register", p.Decl(f).Pos(), "an existing binding of the tag is looked at before it is replaced",
+		"Register binds the wire tag to the type without looking at an existing binding: two different types with the same tag (function-local types with one identifier in one package) overwrite each other silently, and a saved value of one is restored as the other")
+}
+
+// divisorConfigRule: a configuration field used as a divisor (or as the stride
+// that turns a byte count into a number of pieces) must be compared with 0 (or 1)
+// somewhere in its package: the builders accept any integer, a zero divisor
+// panics on the first message, and a negative one yields zero pieces — the
+// message is taken from the device and nothing is sent.
+func divisorConfigRule(c *Ctx, rule string, pred func(string) bool, floor int) {
+	p := c.P
+	byPkg := map[string][]*ssa.Function{}
+	for _, fn := range p.SrcFuncs(pred) {
+		byPkg[pkgOfFn(fn)] = append(byPkg[pkgOfFn(fn)], fn)
+	}
+	seen := map[*types.Var]bool{}
+	n := 0
+	for _, fn := range p.SrcFuncs(pred) {
+		for _, b := range fn.Blocks {
+			for _, in := range b.Instrs {
+				bo, ok := in.(*ssa.BinOp)
+				if !ok || (bo.Op != token.QUO && bo.Op != token.REM) {
+					continue
+				}
+				var f *types.Var
+				switch y := stripConv(bo.Y).(type) {
+				case *ssa.UnOp:
+					f = FieldOf(y.X)
+				case *ssa.Field:
+					f = FieldOf(y)
+				}
+				if f == nil || f.Pkg() == nil || f.Pkg().Path() != pkgOfFn(fn) || seen[f] {
+					continue
+				}
+				if bt, isB := f.Type().Underlying().(*types.Basic); !isB || bt.Info()&types.IsInteger == 0 {
+					continue
+				}
+				// only fields of the package's Spec
+				if sp := p.LookupType(strings.TrimPrefix(pkgOfFn(fn), ModPath+"/"), "Spec"); sp != nil {
+					st, _ := sp.Type().Underlying().(*types.Struct)
+					isSpec := false
+					for i := 0; st != nil && i < st.NumFields(); i++ {
+						if st.Field(i) == f {
+							isSpec = true
+						}
+					}
+					if !isSpec {
+						continue
+					}
+				} else {
+					continue
+				}
+				seen[f] = true
+				n++
+				handled := false
+				for _, g := range byPkg[pkgOfFn(fn)] {
+					for _, b2 := range g.Blocks {
+						for _, in2 := range b2.Instrs {
+							cmp, isCmp := in2.(*ssa.BinOp)
+							if !isCmp {
+								continue
+							}
+							switch cmp.Op {
+							case token.EQL, token.NEQ, token.LSS, token.LEQ, token.GTR, token.GEQ:
+							default:
+								continue
+							}
+							for _, pair := range [][2]ssa.Value{{cmp.X, cmp.Y}, {cmp.Y, cmp.X}} {
+								if !(constIs(pair[1], "0") || constIs(pair[1], "1")) {
+									continue
+								}
+								switch y := stripConv(pair[0]).(type) {
+								case *ssa.UnOp:
+									if g2 := FieldOf(y.X); g2 != nil && sameObj(g2, f) {
+										handled = true
+									}
+								case *ssa.Field:
+									if g2 := FieldOf(y); g2 != nil && sameObj(g2, f) {
+										handled = true
+									}
+								}
+							}
+						}
+					}
+				}
+				c.Check(handled, rule, strings.TrimPrefix(pkgOfFn(fn), ModPath+"/")+":Spec."+f.Name(), in.Pos(), "the divisor is checked against 0 somewhere in the package",
+					"the configuration field "+f.Name()+" is used as a divisor and is never compared with 0 in its package: the builder accepts 0 (a division by zero on the first use) and negative values (zero pieces: the message is consumed and nothing is sent)")
+			}
+		}
+	}
+	c.Check(n >= floor, rule, "instances", 0, itoa(n)+" configuration fields used as divisors inspected", "fewer divisor fields found than confirmed by hand")
+}
+
+// unmarshalCapacityRule: a Buffer decoded from JSON must satisfy the invariant
+// every other way of filling it enforces (Restore panics, the port checkpoint
+// returns an error): no more elements than capacity. UnmarshalJSON compares the
+// decoded element count with the decoded capacity and refuses the document.
+func unmarshalCapacityRule(c *Ctx, rule string) {
+	p := c.P
+	f := c.fn(rule, "queueing", "Buffer", "UnmarshalJSON")
+	if f == nil {
+		return
+	}
+	fn := p.SSAFunc(f)
+	if fn == nil {
+		c.Unknown(rule, "queueing.Buffer.UnmarshalJSON", p.Decl(f).Pos(), "no SSA body")
+		return
+	}
+	checked := false
+	for _, b := range fn.Blocks {
+		for _, in := range b.Instrs {
+			bo, ok := in.(*ssa.BinOp)
+			if !ok {
+				continue
+			}
+			switch bo.Op {
+			case token.GTR, token.LSS, token.GEQ, token.LEQ:
+			default:
+				continue
+			}
+			isLen := func(v ssa.Value) bool {
+				call, isCall := v.(*ssa.Call)
+				if !isCall {
+					return false
+				}
+				bi, isB := call.Call.Value.(*ssa.Builtin)
+				return isB && bi.Name() == "len"
+			}
+			readsCap := func(v ssa.Value) bool {
+				for y := range DataSlice(fn, v) {
+					if g := FieldOf(y); g != nil && g.Name() == "Cap" {
+						return true
+					}
+				}
+				return false
+			}
+			if (isLen(bo.X) && readsCap(bo.Y)) || (isLen(bo.Y) && readsCap(bo.X)) {
+				checked = true
+			}
+		}
+	}
+	c.Check(checked, rule, "queueing.Buffer.UnmarshalJSON", p.Decl(f).Pos(), "the decoded element count is compared with the decoded capacity",
+		"UnmarshalJSON installs whatever the document says: a buffer with more elements than its capacity is accepted silently, although Restore and the port checkpoint reject exactly that (a corrupted or hand-edited checkpoint yields a buffer that violates its bound)")
+}
